@@ -28,6 +28,8 @@ pub struct Lock {
     pub log: Vec<(Vec<u8>, bool)>,
     pub ctr: u64,
     pub pid: &'static str,
+    /// request decoding on every symbol line (payloads are undecodable: every final fails)
+    pub decode_all: bool,
 }
 
 pub struct Step {
@@ -39,7 +41,7 @@ pub struct Step {
 
 impl Lock {
     pub fn new(pid: &'static str) -> Self {
-        Lock { p: Parser::new(), m: Reasm::new(), log: Vec::new(), ctr: 0, pid }
+        Lock { p: Parser::new(), m: Reasm::new(), log: Vec::new(), ctr: 0, pid, decode_all: false }
     }
 
     /// Feed one well-formed line with a given payload; judge against the model.
@@ -183,7 +185,8 @@ impl Lock {
         match s {
             Sym::Hdr(n, k, id) => {
                 let c = self.next_ctr();
-                Some(self.feed_hdr(rep, *n, *k, *id, &uniq_payload(c), 0, false, None, note))
+                let d = self.decode_all;
+                Some(self.feed_hdr(rep, *n, *k, *id, &uniq_payload(c), 0, d, None, note))
             }
             Sym::BadChecksum => {
                 self.feed_inert(rep, true, note);
@@ -218,7 +221,7 @@ pub fn alphabet() -> Vec<Sym> {
 }
 
 /// bounded-exhaustive: every history of exactly `depth` symbols (all shorter ones are prefixes)
-fn exhaustive(ctx: &Ctx, rep: &mut Report, depth: usize) {
+fn exhaustive(ctx: &Ctx, rep: &mut Report, depth: usize, decode_all: bool) {
     let a = alphabet();
     let base = a.len() as u64;
     let total = base.pow(depth as u32);
@@ -230,6 +233,7 @@ fn exhaustive(ctx: &Ctx, rep: &mut Report, depth: usize) {
             continue;
         }
         let mut lk = Lock::new(PID);
+        lk.decode_all = decode_all;
         let mut x = h;
         let mut digits = vec![0usize; depth];
         for d in (0..depth).rev() {
@@ -455,11 +459,16 @@ pub const REQUIRED_CELLS: &[&str] = &[
     "open-last1|unfragmented|Complete",
     "open-last1|opener-same-id|Incomplete",
     "open-last1|opener-other-id|Incomplete",
+    "after-failed-delivery|stale-after-failed-delivery|Err",
+    "after-failed-delivery|opener|Incomplete",
 ];
 
 pub fn run(ctx: &Ctx, rep: &mut Report) {
     let mut r = ctx.rng("c06");
-    exhaustive(ctx, rep, if ctx.thorough() { 5 } else { 4 });
+    exhaustive(ctx, rep, if ctx.thorough() { 5 } else { 4 }, false);
+    // the same with decoding requested: unique payloads do not decode, so every final
+    // fragment fails after sequencing and the state after a failed delivery is explored
+    exhaustive(ctx, rep, 4, true);
     random_histories(ctx, rep, &mut r);
     for c in REQUIRED_CELLS {
         rep.require(&format!("cell:{}", c));
